@@ -56,6 +56,71 @@ var twoPass = map[string]func(seed uint64, r1 *runResult) map[string]int{}
 
 func registerTwoPass(name string, f func(seed uint64, r1 *runResult) map[string]int) { twoPass[name] = f }
 
+// twin scenarios: the same seed is run twice with different parameters and the observable
+// histories (API events, emitted packets, with their virtual times) must be identical.
+type twinDef struct {
+	// variants returns the parameters of the primary and of the reference run
+	variants func(seed uint64, params map[string]int) (a, b map[string]int)
+	// verdict names property / class / explanation for a mismatch
+	verdict func(a map[string]int, ra, rb *runResult) (prop, class, msg string)
+}
+
+var twins = map[string]twinDef{}
+
+func registerTwin(name string, d twinDef) { twins[name] = d }
+
+// execRun runs a scenario once, or as a twin pair when the scenario is registered as one.
+func execRun(t *testing.T, name string, sc scenario, o runOpts) *runResult {
+	td, ok := twins[name]
+	if !ok {
+		return runOne(t, sc, o)
+	}
+	pa, pb := td.variants(o.seed, copyParams(o.params))
+	oa := o
+	oa.params = pa
+	oa.keepObs = true
+	cryptotest.SetGlobalRandom(t, o.seed)
+	ra := runOne(t, sc, oa)
+	ra.Params = pa
+	if ra.Violation != nil || ra.Aborted != "" || ra.Leak != "" {
+		return ra
+	}
+	ob := o
+	ob.params = pb
+	ob.verbose, ob.keepTapes, ob.keepObs = false, false, true
+	cryptotest.SetGlobalRandom(t, o.seed)
+	rb := runOne(t, sc, ob)
+	if rb.Violation != nil || rb.Aborted != "" {
+		// the reference run has its own verdict: report it (it is an ordinary run)
+		rb.Params = pb
+		rb.Tapes = ra.Tapes
+		return rb
+	}
+	if rb.Leak != "" {
+		ra.Leak = rb.Leak
+	}
+	if ra.ObsHash != rb.ObsHash {
+		prop, class, msg := td.verdict(pa, ra, rb)
+		i := 0
+		for i < len(ra.obs) && i < len(rb.obs) && ra.obs[i] == rb.obs[i] {
+			i++
+		}
+		ea, eb := "<end>", "<end>"
+		if i < len(ra.obs) {
+			ea = ra.obs[i]
+		}
+		if i < len(rb.obs) {
+			eb = rb.obs[i]
+		}
+		ra.Violation = &violation{Prop: prop, Class: class, Msg: fmt.Sprintf("%s; first difference at observable event %d: with the packet %q, in the reference run %q", msg, i, ea, eb)}
+	}
+	if ra.Extra == nil {
+		ra.Extra = map[string]any{}
+	}
+	ra.Extra["twin_compared"] = 1
+	return ra
+}
+
 func copyParams(p map[string]int) map[string]int {
 	o := map[string]int{}
 	for k, v := range p {
@@ -179,7 +244,7 @@ func TestVsim(t *testing.T) {
 			}
 		}
 		cryptotest.SetGlobalRandom(t, seed)
-		res := runOne(t, sc, runOpts{seed: seed, prop: *flagProp, verbose: *flagVerbose, debugLog: *flagDebug, keepTapes: *flagTapes, params: copyParams(runParams)})
+		res := execRun(t, *flagProp, sc, runOpts{seed: seed, prop: *flagProp, verbose: *flagVerbose, debugLog: *flagDebug, keepTapes: *flagTapes, params: copyParams(runParams)})
 		res.Params = runParams
 		if !*flagTapes && res.Violation == nil {
 			res.Config = nil
@@ -187,7 +252,7 @@ func TestVsim(t *testing.T) {
 		if res.Violation != nil && res.Tapes == nil {
 			// re-run is not needed: ask for tapes up front when a violation is found
 			cryptotest.SetGlobalRandom(t, seed)
-			res2 := runOne(t, sc, runOpts{seed: seed, prop: *flagProp, keepTapes: true, params: copyParams(runParams)})
+			res2 := execRun(t, *flagProp, sc, runOpts{seed: seed, prop: *flagProp, keepTapes: true, params: copyParams(runParams)})
 			if res2.Violation == nil || res2.Hash != res.Hash {
 				res.Notes = append(res.Notes, fmt.Sprintf("NONDETERMINISM on re-run: hash %s vs %s, violation %v", res.Hash, res2.Hash, res2.Violation))
 				res.Aborted = "nondeterminism: re-run of the violating seed differs"
@@ -249,7 +314,7 @@ func replayMain(t *testing.T, enc *json.Encoder) {
 	}
 	*flagTier = rf.Tier
 	cryptotest.SetGlobalRandom(t, rf.Seed)
-	res := runOne(t, sc, runOpts{seed: rf.Seed, prop: rf.Scenario, replay: rf.Tapes, verbose: *flagVerbose, debugLog: *flagDebug, params: rf.Params})
+	res := execRun(t, rf.Scenario, sc, runOpts{seed: rf.Seed, prop: rf.Scenario, replay: rf.Tapes, verbose: *flagVerbose, debugLog: *flagDebug, params: rf.Params})
 	_ = enc.Encode(res)
 	if *flagVerbose {
 		for _, l := range res.Trace {
